@@ -494,16 +494,29 @@ def cls_of(kind):
     return B._get_block_class(BlockType(TY[kind]))
 
 
+def call_limit(nbytes):
+    """seconds one encode / decode call of that many bytes may take: two minutes plus a minute per 4 MiB"""
+    return 120 + 60 * (nbytes >> 22)
+
+
 def impl_write(obj):
+    from harness import common
     f = io.BytesIO()
-    obj._write(f)
+    try:
+        size = int(obj.nBytes)
+    except Exception:
+        size = 0
+    with common.time_limit(call_limit(max(size, 0))):
+        obj._write(f)
     return f.getvalue()
 
 
 def impl_build(kind, fmt, data, trailer=b""):
     """returns (object, bytes consumed)"""
+    from harness import common
     f = io.BytesIO(bytes(data) + trailer)
-    o = cls_of(kind)._build(f, fmt)
+    with common.time_limit(call_limit(len(data))):
+        o = cls_of(kind)._build(f, fmt)
     return o, f.tell()
 
 
